@@ -77,6 +77,10 @@ const (
 	FailBefore
 	// LostAck sends, lets it commit, and returns an error.
 	LostAck
+	// FailBeforeFinal is FailBefore with an error code the etcd client does not retry
+	// (Internal): reads failed with Unavailable or with a context error are silently retried by clientv3's own
+	// retry interceptor, which sits outside this one, and never reach the caller.
+	FailBeforeFinal
 )
 
 // RPC is one logged client RPC.
@@ -214,12 +218,19 @@ func (c *Client) intercept(ctx context.Context, method string, req, reply interf
 	if c.Decide != nil && (r.Write || r.Method == "Range") {
 		mode = c.Decide(&r)
 	}
+	if mode == FailBefore && !r.Write {
+		// a read failed with Unavailable never reaches the caller (clientv3 retries it)
+		mode = FailBeforeFinal
+	}
 	r.Send = hist.Tick()
 	var err error
 	switch mode {
 	case FailBefore:
 		r.Fault = "fail-before"
 		err = status.Error(codes.Unavailable, "etcdx: injected failure before send")
+	case FailBeforeFinal:
+		r.Fault = "fail-before-final"
+		err = status.Error(codes.Internal, "etcdx: injected failure before send (not retried)")
 	case LostAck:
 		r.Fault = "lost-ack"
 		err = invoker(ctx, method, req, reply, cc, opts...)
